@@ -112,10 +112,10 @@ impl Engine for C01 {
         )
     }
     fn random_cases(&self, tier: Tier) -> u32 {
-        tier.pick(2000, 40000)
+        tier.pick(2000, 12000)
     }
     fn strategy(&self, tier: Tier) -> BoxedStrategy<Case> {
-        let mix = tier.pick(SizeMix::Normal, SizeMix::Boundary);
+        let mix = tier.pick(SizeMix::Normal, SizeMix::Normal);
         (gen::algo(), gen::blob(mix), gen::blob(SizeMix::Small), gen::cdamage(2), gen::bufs())
             .prop_map(|(algo, blob, mut other, mut dmg, bufs)| {
                 if other.bytes() == blob.bytes() {
